@@ -921,14 +921,15 @@ def ordered_arguments(
   ):
     if param.kind not in (param.VAR_POSITIONAL, param.VAR_KEYWORD):
       value = unset
-      if name in buildable.__arguments__ or (
-          index in buildable.__arguments__
-          and param.kind == param.POSITIONAL_ONLY
+      if (
+          param.kind == param.POSITIONAL_ONLY
+          and index in buildable.__arguments__
       ):
-        if name in buildable.__arguments__:
-          value = buildable.__arguments__[name]
-        else:
-          value = buildable.__arguments__[index]
+        # Positional-only arguments are stored by index. (A same-named str
+        # key is then an extra keyword argument, handled below.)
+        value = buildable.__arguments__[index]
+      elif name in buildable.__arguments__:
+        value = buildable.__arguments__[name]
       elif param.default is not param.empty:
         if include_defaults:
           value = param.default
@@ -950,8 +951,19 @@ def ordered_arguments(
 
   if include_var_keyword:
     for name, value in buildable.__arguments__.items():
+      if not isinstance(name, str):
+        continue  # Positional arguments were handled above.
       param = buildable.__signature_info__.parameters.get(name)
       if param is None or param.kind == param.VAR_KEYWORD:
+        result[name] = value
+      elif param.kind == param.VAR_POSITIONAL or (
+          param.kind == param.POSITIONAL_ONLY
+          and name not in result
+          and list(buildable.__signature_info__.parameters).index(name)
+          in buildable.__arguments__
+      ):
+        # `f(1, a=2)` for `def f(a, /, **kwargs)`: a keyword that merely shares
+        # its name with a positional-only or *args parameter goes to **kwargs.
         result[name] = value
 
   if not include_positional:
